@@ -281,15 +281,31 @@ def r07_4(ctx: Ctx) -> None:
                         ctx.check(ok, "R07.4", f, n, f"{fq}: {cn}.{t.attr} is serialised by {cn}'s writer",
                                   f"{fq} sets the format field {cn}.{t.attr}, but no serialiser of {cn} ever reads it: the value is computed and then dropped from the archive",
                                   construct=f"{cn}.{t.attr} set but never serialised")
-    ctx.floor("R07.4", n_sites, 6, "format-field assignments in the writer closure")
+    ctx.floor("R07.4", n_sites, 3, "format-field assignments in the writer closure")
+
+
+_CE = None
 
 
 def _int_consts(e: ast.AST) -> Set[int]:
-    return {n.value for n in ast.walk(e) if isinstance(n, ast.Constant) and isinstance(n.value, int) and not isinstance(n.value, bool)}
+    """integer literals of e, plus module-level integer constants it names (CODER_HAS_ATTRIBUTES = 0x20)."""
+    out = {n.value for n in ast.walk(e) if isinstance(n, ast.Constant) and isinstance(n.value, int) and not isinstance(n.value, bool)}
+    if _CE is not None:
+        for n in ast.walk(e):
+            if isinstance(n, ast.Name) and n.id.isupper():
+                try:
+                    v = _CE.module_const("archiveinfo", n.id)
+                    if isinstance(v, int) and not isinstance(v, bool):
+                        out.add(v)
+                except Exception:
+                    pass
+    return out
 
 
 def r07_5(ctx: Ctx) -> None:
     """coder record: flag byte masks agree between writer and reader; optional parts written iff flagged."""
+    global _CE
+    _CE = ctx.ce
     w = ctx.prog.func("archiveinfo", "Folder.write")
     r = ctx.prog.func("archiveinfo", "Folder._read")
     # writer: the flag byte is packed from an OR of three parts whose constants are {0x0F, 0x10, 0x20}
